@@ -292,6 +292,7 @@ pub fn run(ctx: &Ctx) {
     let total = per_round * name_rounds;
     ctx.note("matrix", json!({"cases": cases.len(), "prior_states": ["absent", "present with short known content", "present with 400 kB of known content", "dangling symbolic link (target absent)", "symbolic link to a file with known content"], "executions": total}));
     let wdp = &wd;
+    let (small_kf_ref, small_pf_ref) = (small_kf.clone(), small_pf.clone());
     par_for(total, crate::util::ncpu(), |jfull| {
         let (round, j) = (jfull / per_round, jfull % per_round);
         let out_name: &str = if round == 0 { "OUT" } else { &out_names[1 + (j + round * 7 + ctx.seed as usize) % (out_names.len() - 1)] };
@@ -308,7 +309,16 @@ pub fn run(ctx: &Ctx) {
         let out = dir.join(out_name);
         // "input == output" needs the path to exist as the input: prior content is the input itself
         let uses_out_as_input = case.cause.contains("input == output");
-        if present || uses_out_as_input {
+        if uses_out_as_input {
+            // the path is the INPUT too: it holds something the command could really work on (a valid ciphertext for the
+            // decrypting commands), so that "input and output are the same file" is the only reason to fail
+            let content: &[u8] = match case.command {
+                "decrypt" => &small_kf_ref,
+                "password decrypt" => &small_pf_ref,
+                _ => &long_prior,
+            };
+            std::fs::write(&out, content).unwrap();
+        } else if present {
             std::fs::write(&out, &long_prior).unwrap();
         } else if state == 3 {
             // dangling link: the path "exists" only as a link; its target is absent (and must stay absent)
